@@ -79,10 +79,17 @@ def reader_line_checks(rep, M, rule, site, label, Te, Tm, mode_name, universal, 
 
 
 def r1_no_injection(rep, src, M):
-    worlds, fdump = M.dump_worlds()
+    substs = []
+    worlds, fdump = M.dump_worlds(substitutions=substs)
     VL = M.validator_lang('\r\n')
     fval = VL['V']['func']
     alpha = M.alpha
+    for term, old_, new_, preds, line_ in substs:
+        # a substitution on the way out is the identity when no accepted value contains the replaced text; anything else changes the
+        # written text in a way this rule does not model
+        import re as _re
+        if strlang.slots_of(term) != ['value'] or M.refine(VL['accepted'], preds).intersect(M.pat('(?s:.*)' + _re.escape(old_) + '(?s:.*)')).witness() is not None:
+            raise AnalysisError('%s: line %d rewrites the value with replace(%r, %r): outside the template vocabulary of this rule' % (fdump.site, line_, old_, new_))
     keyl = M.pat(KEY_RE)
     n = 0
     for term, preds in worlds:
